@@ -20,7 +20,7 @@ theorem mask_nonempty (i : Inst) (s : State) (hr : Reach env i s) :
     have hclosed : ¬ (i.req ≤ s.tot ∨ visitedCustomers i s = i.n) := by
       intro h
       apply h0
-      simp only [env, mask, if_true, Params.pctspMaskPrizeCmp, Params.pctspMaskCountCmp, Cmp.eval,
+      simp only [env, mask, if_true, maskReq_eq, Params.pctspMaskPrizeCmp, Params.pctspMaskCountCmp, Cmp.eval,
         Cmp.evalNat, Bool.not_eq_true', Bool.and_eq_false_iff, decide_eq_false_iff_not]
       rcases h with h | h
       · left; omega
